@@ -6,8 +6,11 @@ Two independent ways to obtain the sequence of file-system calls an operation pe
                     modules by forwarding proxies that record open / write / fsync / close /
                     replace / rename / remove / unlink / makedirs / mkdir, tempfile.mkstemp,
                     tempfile.NamedTemporaryFile and pq.ParquetWriter (whose C++ writes are invisible
-                    to Python: one synthetic write with the bytes found in the file is recorded
-                    when the writer is closed).  Nothing in /repo is edited.
+                    to Python: a synthetic write with the bytes found in the file beyond those
+                    already recorded is emitted when the writer is closed AND right before every
+                    fsync of the file while the writer is open -- an fsync persists what the file
+                    holds at that instant, so bytes the writer adds later, e.g. the parquet footer
+                    written by close(), are a separate later write).  Nothing in /repo is edited.
   strace_run        runs a command under `strace -f -y -xx` and parses the log; this also sees
                     pyarrow's own write(2) calls.
 
@@ -69,6 +72,7 @@ class InProcessTracer:
         self.root = os.path.realpath(root)
         self.events: List[Dict[str, Any]] = []
         self.fds: Dict[int, str] = {}
+        self.writers: Dict[str, Any] = {}       # path -> open _WriterProxy (C++ writes, made visible at fsync / close)
         self.mutate = mutate
         self._saved: List[Tuple[Any, str, Any]] = []
         # fault injection: the `index`-th durability call (counted over the whole run) raises OSError(EIO)
@@ -119,6 +123,9 @@ class InProcessTracer:
         if p is None:
             self.emit(op="other", call="fsync-unknown-fd", path=str(fd))
         else:
+            w = self.writers.get(p)
+            if w is not None:
+                w.flush_seen()          # what the file holds NOW is what this fsync persists
             self.emit(op="fsync", path=p, isdir=os.path.isdir(p))
 
     # -- patching
@@ -310,22 +317,36 @@ class _WriterProxy:
         self._path = tracer._abs(where) if isinstance(where, (str, bytes, os.PathLike)) and not kw.get("filesystem") else None
         self._w = pq.ParquetWriter(where, schema, **kw)
         self._closed = False
+        self._seen = 0
         if self._path is not None:
             # arrow opens the path O_WRONLY|O_CREAT|O_TRUNC
             tracer.emit(op="open", path=self._path, flags=["O_WRONLY", "O_CREAT", "O_TRUNC"])
+            tracer.writers[self._path] = self
         else:
             tracer.emit(op="other", call="ParquetWriter(non-local)", path=str(where))
 
     def __getattr__(self, name: str) -> Any:
         return getattr(self._w, name)
 
+    def flush_seen(self, final: bool = False) -> None:
+        """Record the bytes arrow has written to the file since the last record (append-only)."""
+        try:
+            with open(self._path, "rb") as f:
+                f.seek(self._seen)
+                data = f.read()
+        except OSError:
+            return
+        if data or (final and self._seen == 0):
+            self._t.emit(op="write", path=self._path, data=data, synthetic=True)
+            self._seen += len(data)
+
     def close(self) -> None:
         self._w.close()
         if not self._closed and self._path is not None:
             self._closed = True
-            with open(self._path, "rb") as f:
-                data = f.read()
-            self._t.emit(op="write", path=self._path, data=data, synthetic=True)
+            self.flush_seen(final=True)
+            if self._t.writers.get(self._path) is self:
+                del self._t.writers[self._path]
 
     def __enter__(self) -> "_WriterProxy":
         return self
